@@ -358,6 +358,16 @@ void ZSTD_copyDCtx(ZSTD_DCtx* dstDCtx, const ZSTD_DCtx* srcDCtx)
     dstDCtx->staticSize = staticSize;
     dstDCtx->ddictLocal = ddictLocal;
     dstDCtx->ddictSet = ddictSet;
+    /* table pointers into the source's own entropy tables now designate the copy's */
+#define ZSTD_REBASE_TABLE_PTR(ptr, type) \
+    if ( ((const char*)srcDCtx->ptr >= (const char*)&srcDCtx->entropy) \
+      && ((const char*)srcDCtx->ptr <  (const char*)(&srcDCtx->entropy + 1)) ) \
+        dstDCtx->ptr = (type)(const void*)((const char*)dstDCtx + ((const char*)srcDCtx->ptr - (const char*)srcDCtx))
+    ZSTD_REBASE_TABLE_PTR(LLTptr, const ZSTD_seqSymbol*);
+    ZSTD_REBASE_TABLE_PTR(MLTptr, const ZSTD_seqSymbol*);
+    ZSTD_REBASE_TABLE_PTR(OFTptr, const ZSTD_seqSymbol*);
+    ZSTD_REBASE_TABLE_PTR(HUFptr, const HUF_DTable*);
+#undef ZSTD_REBASE_TABLE_PTR
 }
 
 /* Given a dctx with a digested frame params, re-selects the correct ZSTD_DDict based on
